@@ -16,10 +16,14 @@
 (***************************************************************************)
 EXTENDS TdfLayout, FiniteSets, SequencesExt, TLC
 
-Tok(ty, v)    == [ty |-> ty, v |-> v, w |-> Width(ty)]
-PadTok(n)     == [ty |-> "pad", v |-> 0, w |-> n]
-StrTok(w, s)  == [ty |-> "str", v |-> s, w |-> w, tail |-> 0]
-RawTok(n, s)  == [ty |-> "raw", v |-> s, w |-> n]
+\* p says how the harness turns v into a concrete value: "n" = the number itself,
+\* "f" = float id, otherwise the name of an integer pool (TdfLayout iid / iarr / varr)
+Tok(ty, v)      == [ty |-> ty, v |-> v, w |-> Width(ty), p |-> "n"]
+TokF(ty, v)     == [ty |-> ty, v |-> v, w |-> Width(ty), p |-> "f"]
+TokI(ty, v, pl) == [ty |-> ty, v |-> v, w |-> Width(ty), p |-> pl]
+PadTok(n)       == [ty |-> "pad", v |-> 0, w |-> n, p |-> "n"]
+StrTok(w, s)    == [ty |-> "str", v |-> s, w |-> w, p |-> "t", tail |-> 0]
+RawTok(n, s)    == [ty |-> "raw", v |-> s, w |-> n, p |-> "n"]
 
 \* ------------------------------------------------------------ run-length code
 \* mask: Seq(BOOLEAN); runs: Seq of <<start (0-based), length>>
@@ -47,10 +51,13 @@ RECURSIVE EncF(_, _, _)
 EncRle(f, v) ==
   LET frames == v[f.name]
       rs == Runs(MaskOf(frames)) IN
-  << Tok("i32", Len(rs)), PadTok(4) >>
-  \o FlattenSeq([r \in 1..Len(rs) |-> << Tok("i32", rs[r][1]), Tok("i32", rs[r][2]) >>])
-  \o FlattenSeq([r \in 1..Len(rs) |-> FlattenSeq([q \in 1..rs[r][2] |->
-        [c \in 1..f.per |-> Tok(f.ty, frames[rs[r][1] + q][c])]])])
+  \* [count of runs] [pad] [start, length]* [samples of every run]; the tokens of a
+  \* run-length coded region carry g = "rle" so that the harness can find it
+  LET ts == << Tok("i32", Len(rs)), PadTok(4) >>
+            \o FlattenSeq([r \in 1..Len(rs) |-> << Tok("i32", rs[r][1]), Tok("i32", rs[r][2]) >>])
+            \o FlattenSeq([r \in 1..Len(rs) |-> FlattenSeq([q \in 1..rs[r][2] |->
+                  [c \in 1..f.per |-> TokF(f.ty, frames[rs[r][1] + q][c])]])])
+  IN [j \in 1..Len(ts) |-> ts[j] @@ [g |-> "rle"]]
 
 \* data[frame][cam] = sequence of points <<x, y>>; <<>> = no points (None)
 EncPck(f, v) ==
@@ -59,16 +66,20 @@ EncPck(f, v) ==
       nC == Len(v[f.cams]) IN
   FlattenSeq([c \in 1..nC |-> [fr \in 1..nF |-> Tok("u16", Len(data[fr][c]))]])
   \o FlattenSeq([fr \in 1..nF |-> FlattenSeq([c \in 1..nC |->
-        FlattenSeq([p \in 1..Len(data[fr][c]) |-> << Tok("f32", data[fr][c][p][1]), Tok("f32", data[fr][c][p][2]) >>])])])
+        FlattenSeq([p \in 1..Len(data[fr][c]) |-> << TokF("f32", data[fr][c][p][1]), TokF("f32", data[fr][c][p][2]) >>])])])
 
 EncList(item, xs, fmt) == FlattenSeq([i \in 1..Len(xs) |-> EncS(Layout[item], xs[i], fmt)])
 
 EncF(f, v, fmt) ==
   CASE f.k = "int"   -> << Tok(f.ty, v[f.name] - f.bias) >>
-    [] f.k \in {"iid", "flt", "enum"} -> << Tok(f.ty, v[f.name]) >>
+    [] f.k = "iid"   -> << TokI(f.ty, v[f.name], f.pool) >>
+    [] f.k = "flt"   -> << TokF(f.ty, v[f.name]) >>
+    [] f.k = "enum"  -> << Tok(f.ty, v[f.name]) >>
     [] f.k = "count" -> << Tok(f.ty, Len(v[f.of])) >>
-    [] f.k \in {"arr", "iarr"} -> [i \in 1..f.n |-> Tok(f.ty, v[f.name][i])]
-    [] f.k \in {"seq", "varr"} -> [i \in 1..Len(v[f.name]) |-> Tok(f.ty, v[f.name][i])]
+    [] f.k = "arr"   -> [i \in 1..f.n |-> TokF(f.ty, v[f.name][i])]
+    [] f.k = "iarr"  -> [i \in 1..f.n |-> TokI(f.ty, v[f.name][i], f.pool)]
+    [] f.k = "seq"   -> [i \in 1..Len(v[f.name]) |-> TokF(f.ty, v[f.name][i])]
+    [] f.k = "varr"  -> [i \in 1..Len(v[f.name]) |-> TokI(f.ty, v[f.name][i], f.pool)]
     [] f.k = "str"   -> << StrTok(f.w, v[f.name]) >>
     [] f.k = "pad"   -> << PadTok(f.n) >>
     [] f.k = "raw"   -> << RawTok(f.n, v[f.name]) >>
